@@ -130,3 +130,7 @@ INT_RETS = [
 ]
 INT_RET = {x.key: x for x in INT_RETS}
 INT_RET["ir_u64_io_alias"] = Ret("ir_u64_io_alias", "AliasRes<u64, std::io::Error>", INT_RET["ir_u64_io"].expr, "ret.dg()", int_result=True, c_kind="int")
+
+_NONOS = 'std::io::Error::new(std::io::ErrorKind::Other, "non-os")'
+INT_RET["plain_io"] = Ret("plain_io", "Result<u64, std::io::Error>", "match st & 3 { 0 => Err(%s), 1 => Err(std::io::Error::from_raw_os_error(%s)), _ => Ok(st) }" % (_NONOS, _CODE), "ret.dg()", c_kind="cresult")
+INT_RET["plain_io_unit"] = Ret("plain_io_unit", "Result<(), std::io::Error>", "match st & 3 { 0 => Err(%s), 1 => Err(std::io::Error::from_raw_os_error(%s)), _ => Ok(()) }" % (_NONOS, _CODE), "ret.dg()", c_kind="cresult")
